@@ -416,7 +416,7 @@ class RouteController:
         if not self._neighbor_cache.get(route_entry.next_hop_ip):
             logger.info("Neighbor entry does not exist, creating modules.")
             update_module_name = get_update_module_name(
-                route_entry.interface,
+                route_module_name,
                 next_hop_mac,
             )
             merge_module_name = get_merge_module_name(route_entry.interface)
